@@ -77,12 +77,42 @@ def _draw(fam, rnd):
     return (round(rnd.uniform(-0.5, 0.5), 3), round(rnd.uniform(0.3, 1.0), 3))
 
 
+def accessors(cell, model):
+    """spec parameter name -> function returning the CONSTRAINED value of that parameter of THIS model object"""
+    T = 2 if cell["lik"] in ("mt0", "mt1") else 1
+    dk = model.covar_module.data_covar_module if T > 1 else model.covar_module
+    parts = list(dk.kernels) if cell["kernel"] == "sum" else [dk]
+    acc = {}
+    for i, sk in enumerate(parts, 1):
+        acc["lengthscale.%d" % i] = (lambda sk=sk: sk.base_kernel.lengthscale)
+        acc["outputscale.%d" % i] = (lambda sk=sk: sk.outputscale)
+    lik = model.likelihood
+    if cell["lik"] != "fixed":
+        acc["noise"] = lambda: lik.noise
+    if cell["lik"] == "mt0":
+        acc["task_noises"] = lambda: lik.task_noises
+    return acc
+
+
+def randomize(torch, model, g):
+    D = torch.float64
+    with torch.no_grad():
+        for name, p in model.named_parameters():
+            if "covar_factor" in name:
+                p.copy_(0.5 * torch.randn(p.shape, generator=g, dtype=D))
+            else:
+                p.copy_(torch.rand(p.shape, generator=g, dtype=D) * 2 - 1)
+
+
 def build_cell(torch, gpytorch, cell, seed):
     """real model of one lattice cell; returns dict(model, lik, x, y, acc) where acc maps the spec's parameter names to
-    functions returning the CONSTRAINED value, and pp maps them to the prior parameters drawn for this instance"""
+    functions returning the CONSTRAINED value, and pp maps them to the prior parameters drawn for this instance.
+    cell["reg"]: priors passed to the constructors ("ctor") or registered afterwards by parameter name ("name")."""
     import random
     rnd = random.Random(seed)
     g = torch.Generator().manual_seed(seed)
+    by_name = cell.get("reg", "ctor") == "name"
+    later = []                       # (module, prior name, prior, parameter name) registered after construction
     D = torch.float64
     B = tuple(cell["B"])
     BS = torch.Size(B)
@@ -106,13 +136,15 @@ def build_cell(torch, gpytorch, cell, seed):
 
     def part(kind, i):
         name = str(i)
+        lp = mk("lengthscale", "lengthscale." + name)
         if kind == "rbf":
-            base = K.RBFKernel(ard_num_dims=d, batch_shape=BS, lengthscale_prior=mk("lengthscale", "lengthscale." + name))
+            base = K.RBFKernel(ard_num_dims=d, batch_shape=BS, lengthscale_prior=None if by_name else lp)
         else:
-            base = K.MaternKernel(nu=2.5 if i == 1 else 1.5, ard_num_dims=d, batch_shape=BS, lengthscale_prior=mk("lengthscale", "lengthscale." + name))
-        sk = K.ScaleKernel(base, batch_shape=BS, outputscale_prior=mk("outputscale", "outputscale." + name))
-        acc["lengthscale." + name] = lambda: base.lengthscale
-        acc["outputscale." + name] = lambda: sk.outputscale
+            base = K.MaternKernel(nu=2.5 if i == 1 else 1.5, ard_num_dims=d, batch_shape=BS, lengthscale_prior=None if by_name else lp)
+        op = mk("outputscale", "outputscale." + name)
+        sk = K.ScaleKernel(base, batch_shape=BS, outputscale_prior=None if by_name else op)
+        if by_name:
+            later.extend([(base, "lengthscale_prior", lp, "lengthscale"), (sk, "outputscale_prior", op, "outputscale")])
         return sk
 
     if cell["kernel"] == "sum":
@@ -126,7 +158,9 @@ def build_cell(torch, gpytorch, cell, seed):
     fixed = None
     L = gpytorch.likelihoods
     if lik_kind == "homo":
-        lik = L.GaussianLikelihood(noise_prior=mk("noise", "noise"), batch_shape=BS)
+        np_ = mk("noise", "noise")
+        lik = L.GaussianLikelihood(noise_prior=None if by_name else np_, batch_shape=BS)
+        later.append((lik.noise_covar, "noise_prior", np_, "noise"))
     elif lik_kind == "fixed":
         fixed = 0.1 + 0.3 * torch.rand(*B, n, generator=g, dtype=D)
         lik = L.FixedNoiseGaussianLikelihood(noise=fixed, learn_additional_noise=False)
@@ -134,11 +168,14 @@ def build_cell(torch, gpytorch, cell, seed):
         np_ = mk("noise", "noise")
         if np_ is not None and lik_kind == "mt0":
             pp["task_noises"] = pp["noise"]        # the constructor registers the same prior on both parameters
-        lik = L.MultitaskGaussianLikelihood(num_tasks=T, rank=0 if lik_kind == "mt0" else 1, noise_prior=np_, batch_shape=BS)
-    if lik_kind != "fixed":
-        acc["noise"] = lambda: lik.noise
-    if lik_kind == "mt0":
-        acc["task_noises"] = lambda: lik.task_noises
+        lik = L.MultitaskGaussianLikelihood(num_tasks=T, rank=0 if lik_kind == "mt0" else 1, noise_prior=None if by_name else np_, batch_shape=BS)
+        later.append((lik, "raw_noise_prior", np_, "noise"))
+        if lik_kind == "mt0":
+            later.append((lik, "raw_task_noises_prior", np_, "task_noises"))
+    if by_name:
+        for mod_, pname, pr, attr in later:
+            if pr is not None:
+                mod_.register_prior(pname, pr, attr)
 
     class Model(gpytorch.models.ExactGP):
         def __init__(s):
@@ -157,15 +194,35 @@ def build_cell(torch, gpytorch, cell, seed):
             return gpytorch.distributions.MultivariateNormal(m_, k_)
 
     model = Model().to(D)
-    with torch.no_grad():
-        for name, p in model.named_parameters():
-            if "covar_factor" in name:
-                p.copy_(0.5 * torch.randn(p.shape, generator=g, dtype=D))
-            else:
-                p.copy_(torch.rand(p.shape, generator=g, dtype=D) * 2 - 1)
+    randomize(torch, model, g)
     model.train()
     lik.train()
-    return dict(model=model, lik=lik, x=x, y=y, acc=acc, pp=pp, T=T, n=n, B=B, fixed=fixed)
+    return dict(model=model, lik=lik, x=x, y=y, acc=accessors(cell, model), pp=pp, T=T, n=n, B=B, fixed=fixed, gen=g)
+
+
+def build_with_history(torch, gpytorch, cell, seed):
+    """the object whose objective is evaluated, after the history the cell names:
+    fresh: built, hyperparameters set; copy_set: copy.deepcopy of such a model, then OTHER hyperparameters (the original keeps
+    its own); load: a model built the same way that loads the state_dict of a model with other hyperparameters"""
+    import copy
+    hist = cell.get("hist", "fresh")
+    b = build_cell(torch, gpytorch, cell, seed)
+    if hist == "fresh":
+        return b
+    if hist == "copy_set":
+        model = copy.deepcopy(b["model"])
+        randomize(torch, model, b["gen"])
+    elif hist == "load":
+        src = b["model"]
+        randomize(torch, src, b["gen"])
+        b = build_cell(torch, gpytorch, cell, seed)          # same data, same priors, its own hyperparameters
+        model = b["model"]
+        model.load_state_dict(src.state_dict())
+    else:
+        raise core.Machinery("unknown history %r" % (hist,))
+    model.train()
+    b.update(model=model, lik=model.likelihood, acc=accessors(cell, model))
+    return b
 
 
 def noise_matrix(torch, b, cell):
@@ -212,17 +269,23 @@ def reference(torch, b, cell, exp):
 def run_cell(torch, gpytorch, case):
     cell, exp, seed = case["cell"], case["exp"], case["seed"]
     B = tuple(cell["B"])
-    desc = "%s kernel=%s mean=%s lik=%s batch=%s priors(ls,os,noise)=%s path=%s seed=%d" % (
-        cell["obj"], cell["kernel"], cell["mean"], cell["lik"], list(B), list(cell["pri"]), cell["path"], seed)
-    base = "C02/dense/%s/%s/B%d" % (cell["obj"], cell["lik"], len(B))
-    key = [cell[k] for k in ("obj", "kernel", "mean", "lik", "B", "pri", "path")]
+    reg, hist = cell.get("reg", "ctor"), cell.get("hist", "fresh")
+    desc = "%s kernel=%s mean=%s lik=%s batch=%s priors(ls,os,noise)=%s path=%s%s seed=%d" % (
+        cell["obj"], cell["kernel"], cell["mean"], cell["lik"], list(B), list(cell["pri"]), cell["path"],
+        "" if (reg, hist) == ("ctor", "fresh") else " registered=%s history=%s" % (reg, hist), seed)
+    base = "C02/dense/%s/%s/B%d" % (cell["obj"], cell["lik"], len(B)) + ("" if (reg, hist) == ("ctor", "fresh") else "/%s-%s" % (reg, hist))
+    key = [cell[k] for k in ("obj", "kernel", "mean", "lik", "B", "pri", "path")] + [reg, hist]
     res = dict(key=key, ok=True, nontrivial=True, sample=dict(cell=desc))
 
     def fail(sym, detail):
         res.update(ok=False, sig=base + "/" + sym, detail=desc + ": " + detail, case=case)
         return res
 
-    b = build_cell(torch, gpytorch, cell, seed)
+    ok, b = core.guarded(build_with_history, torch, gpytorch, cell, seed)
+    if not ok:
+        if "Machinery" in str(b):
+            raise core.Machinery(str(b))
+        return fail("raises", "building the model / its history raised %s" % b)
     if sorted(n for n, _ in exp["terms"]) != sorted(b["pp"]):
         raise core.Machinery("priors built %s differ from the spec's term list %s" % (sorted(b["pp"]), exp["terms"]))
     model, lik, x, y = b["model"], b["lik"], b["x"], b["y"]
